@@ -13,6 +13,21 @@ namespace Props.C13
 open Wire Gen Gen.Std Gen.Mask
 open FieldMask (MaskOpt Sites Mask Kids Key)
 
+/-! ## regenerated fact: the key-type dispatch of the map templates -/
+
+/-- the dispatch FieldWriteMap / FieldReadMap make on the key type (`IsIntType` → `Int(int(k))`, `IsStrType` → `Str(string(k))`, neither →
+`Int(0)`), asked of the real `golang.IsIntType` / `golang.IsStrType` for every category on every run, is the one the model uses
+(`isIntKey` / `isStrKey`) — and the one `fieldmask.switchFt` uses to type the mask node (IntMap for integer AND enum keys, StrMap for
+string and binary keys). -/
+theorem key_dispatch_table_sound :
+    Generated.C13.keyDispatch =
+      [("bool", isIntKey .bool, isStrKey .bool), ("byte", isIntKey .i8, isStrKey .i8), ("i16", isIntKey .i16, isStrKey .i16),
+       ("i32", isIntKey .i32, isStrKey .i32), ("i64", isIntKey .i64, isStrKey .i64), ("double", isIntKey .dbl, isStrKey .dbl),
+       ("string", isIntKey .str, isStrKey .str), ("binary", isIntKey .bin, isStrKey .bin), ("enum", isIntKey .enum, isStrKey .enum),
+       ("struct", isIntKey (.struct 0), isStrKey (.struct 0)), ("union", isIntKey (.struct 0), isStrKey (.struct 0)),
+       ("exception", isIntKey (.struct 0), isStrKey (.struct 0))] := by
+  decide
+
 /-! ## the pre-count loops -/
 
 /-- FieldWriteMap: the announced count is the number of selected keys (the loop ranges over the keys and leaves the bound alone). -/
